@@ -34,3 +34,10 @@ fn write_all_vectored_inner<'a, W: Write>(
 	}
 	Ok(())
 }
+
+/// Verification harness mount point (only compiled under `cargo kani`; source lives outside this repository)
+#[cfg(kani)]
+#[allow(unused, missing_docs)]
+pub(crate) mod verif {
+	include!(concat!(env!("SAF_VERIF"), "/vectored_write.rs"));
+}
